@@ -4,6 +4,7 @@ import (
 	"bytes"
 	"encoding/hex"
 	"fmt"
+	"golang.org/x/crypto/blake2b"
 	"sort"
 	"strings"
 	"time"
@@ -24,14 +25,15 @@ type C16 struct{ counters }
 func (*C16) Name() string { return "C16" }
 
 type dataGhost struct {
-	id     map[string]string // iri -> id (hex) as first observed in state
-	anchor map[string]int64  // iri -> first anchor time (unix nanos)
-	attest map[string]int64  // iri|attestor -> first attestation time
-	reg    map[string]bool   // resolver id|iri
+	production bool              // the module's own (production) ID hasher is in use
+	id         map[string]string // iri -> id (hex) as first observed in state
+	anchor     map[string]int64  // iri -> first anchor time (unix nanos)
+	attest     map[string]int64  // iri|attestor -> first attestation time
+	reg        map[string]bool   // resolver id|iri
 }
 
 func (g *dataGhost) Clone() explore.Ghost {
-	n := &dataGhost{id: map[string]string{}, anchor: map[string]int64{}, attest: map[string]int64{}, reg: map[string]bool{}}
+	n := &dataGhost{production: g.production, id: map[string]string{}, anchor: map[string]int64{}, attest: map[string]int64{}, reg: map[string]bool{}}
 	for k, v := range g.id {
 		n.id[k] = v
 	}
@@ -65,8 +67,8 @@ func (g *dataGhost) Digest() []byte {
 	return []byte(strings.Join(ks, ";"))
 }
 
-func (m *C16) NewGhost(_ *chain.Chain, _ sdk.Context, s *chain.Snapshot) explore.Ghost {
-	g := &dataGhost{id: map[string]string{}, anchor: map[string]int64{}, attest: map[string]int64{}, reg: map[string]bool{}}
+func (m *C16) NewGhost(c *chain.Chain, _ sdk.Context, s *chain.Snapshot) explore.Ghost {
+	g := &dataGhost{production: c != nil && c.Opts.Hasher == nil, id: map[string]string{}, anchor: map[string]int64{}, attest: map[string]int64{}, reg: map[string]bool{}}
 	iriOf := map[string]string{}
 	for _, d := range s.DataIDs {
 		g.id[d.Iri] = hex.EncodeToString(d.Id)
@@ -179,6 +181,26 @@ func (m *C16) OnState(gh explore.Ghost, _ *chain.Chain, _ sdk.Context, s *chain.
 	g := gh.(*dataGhost)
 	var out []V
 	bad := func(kind, detail string) { out = append(out, V{Kind: "C16/" + kind, Detail: detail}) }
+	for _, d := range s.DataIDs {
+		// the IRI under which data was anchored stays an IRI the chain accepts (every by-IRI query and the
+		// genesis validation of the exported state parse it first)
+		if _, err := data.ParseIRI(d.Iri); err != nil {
+			bad("anchored-iri-rejected-by-the-chains-parser", fmt.Sprintf("%s: %v", d.Iri, err))
+		}
+		// under the production hasher (no collision among the handful of IRIs here) the compact ID is the
+		// documented derivation that existing chains have in state: the first 4 bytes of the 64-bit
+		// BLAKE2b of the IRI followed by the collision byte for 0 collisions (the hash's first byte)
+		if g.production {
+			h, _ := blake2b.New(8, nil)
+			h.Write([]byte(d.Iri))
+			sum := h.Sum(nil)
+			want := append(append([]byte{}, sum[:4]...), sum[0])
+			if !bytes.Equal(d.Id, want) {
+				bad("id-differs-from-the-documented-derivation", fmt.Sprintf("%s has id %x, chains in production derive %x", d.Iri, d.Id, want))
+			}
+			m.inc("ids_compared_with_the_documented_derivation")
+		}
+	}
 	iriOf := map[string]string{}
 	idOf := map[string]string{}
 	for _, d := range s.DataIDs {
